@@ -97,8 +97,34 @@ pub fn check_case(case: &Case, st: &mut Stats) -> Check {
     } else {
         case.clone()
     };
+    // the database code page varies over all supported pages; enumerations
+    // then also get a member spelled with the page's own non-ASCII characters
+    // (schema strings live in the string pool like any cell)
+    let pages = crate::cpref::PAGES;
+    let page = &pages[(case.table.len() + case.cols.len() * 7 + case.close as usize) % pages.len()];
+    let case = &if !exotic && page.id != 65001 {
+        let mut c = case.clone();
+        let special: Vec<char> = crate::cpref::repertoire(page).into_iter().filter(|ch| !ch.is_ascii() && !ch.is_control() && *ch != ';').collect();
+        if !special.is_empty() {
+            for (i, col) in c.cols.iter_mut().enumerate() {
+                if !col.enums.is_empty() && (i + case.close as usize) % 2 == 0 && col.enums.join(";").chars().count() + 8 <= 255 {
+                    let a = special[(i * 5 + case.close as usize) % special.len()];
+                    let b = special[(i * 11 + 3) % special.len()];
+                    col.enums.push(format!("{a}{b}"));
+                    col.enums.push(format!("x{a}"));
+                }
+            }
+        }
+        c
+    } else {
+        case.clone()
+    };
     let buf = SharedBuf::new(Vec::new());
     let mut pkg = Package::create(PackageType::Installer, buf.clone()).map_err(|e| Fail::new(format!("{P} unexpected-error op=Create"), e.to_string()))?;
+    if !exotic && page.id != 65001 {
+        pkg.set_database_codepage(page.cp);
+        st.class("database-code-page-not-utf8");
+    }
     if exotic {
         pkg.set_database_codepage(if (case.close / 3) % 16 == 7 { msi::CodePage::Windows1252 } else { msi::CodePage::UsAscii });
         st.class("exotic-name-under-narrow-code-page");
